@@ -295,13 +295,17 @@ B("B77", "C20-M5", [(SD, "        for node_id in list(self.expanded_ids()):\n   
 B("B35a", "C16-P1", [(SD, '            "nfvs": self.nfvs,\n', '')], "__getstate__ drops nfvs")
 B("B35b", "C16-P2", [(SD, "        self.symbolic = AsynchronousGraph(self.network)\n        self.petri_net = state", "        self.petri_net = state")],
   "__setstate__ forgets self.symbolic")
-B("B35c", "C16-P1", [(SD, '        self.node_indices = state["node_indices"]', '        self.node_indices = dict(enumerate(state["dag"].nodes))')],
-  "node_indices rebuilt from the wrong source")
+B("B35c", "C16-P3", [(SD, '''        self.node_indices = {
+            space_unique_key(self.node_data(node_id)["space"], self.network): node_id
+            for node_id in state["node_indices"].values()
+        }''', '''        self.node_indices = state["node_indices"]''')], "persisted index keys trusted although the restored network may order variables differently (F10)")
+B("B35c2", "C16-P3", [(SD, '''            space_unique_key(self.node_data(node_id)["space"], self.network): node_id
+            for node_id in state["node_indices"].values()''', '''            space_unique_key(self.node_data(node_id)["space"], self.network): node_id
+            for node_id in state["node_indices"].values()
+            if self.node_data(node_id)["expanded"]''')], "index rebuilt for expanded nodes only")
 B("B35d", "C16-P3", [(SD, 'self.network = cleanup_network(BooleanNetwork.from_aeon(state["network_rules"]))',
                       'self.network = cleanup_network(BooleanNetwork.from_bnet(state["network_rules"]))')],
   "rules exported as aeon, parsed as bnet")
-B("B35e", "C16-P3", [(IGU, '''    return BooleanNetwork.from_aeon(network.to_aeon()).infer_valid_graph()''', '''    return network''')],
-  "cleanup_network no longer normalises the variable order")
 B("B78", "C16-P4", [(SD, '''            data["percolated_nfvs"] = None
             if data["attractor_seeds"]''', '''            data["percolated_nfvs"] = None
             data["skipped"] = None
@@ -476,3 +480,11 @@ B("B97", "C09-T4", [(TRAP, '    if problem == "max" and len(free_places) > 0:', 
   "non-triviality clause emitted for every problem kind")
 B("B98", "C09-T1", [(TRAP, "        deleted_transitions = list(set(succs) - set(preds))", "        deleted_transitions = list(set(succs))")],
   "retained reduction also deletes read-arc transitions")
+
+
+# reverting these fix commits by patch is ambiguous after later commits; explicit variants re-introduce the defect
+MANUAL_REVERTS = {"f087faa"}
+B("R-F5", "C08-K1", [(CAND, '''    if not greedy_asp_minification or len(node_nfvs) == 0:''', '''    if len(retained_set) == sd.network.variable_count() and node_is_pseudo_minimal:
+        return [retained_set | node_space]
+
+    if not greedy_asp_minification or len(node_nfvs) == 0:''')], "F5 re-introduced: fixed-point retained set returned as the only candidate")
